@@ -365,6 +365,13 @@ def cases(tier, seed):
     out.append(case('mlkr_n%d_d%d_k%d' % (n, d, k), mlkr_case(n, d, k), FUNCS,
                     '%d arbitrary points in R^%d with arbitrary real targets, L arbitrary %dx%d' % (n, d, k, d),
                     tiers=tiers, cost=20 * n * k, proof_timeout_ms=120000, validate=6, hard_timeout_s=3000, scale=0.5))
+  # widely separated points: squared distances of order 1e4..1e5, the softmax must be stabilised per row (float64 behaviour, sampled)
+  out.append(case('nca_n3_d2_k2_large_scale_sampled', nca_case(3, 2, 2), FUNCS,
+                  '3 random dyadic points of magnitude ~80 in R^2, random L (2x2): value and gradient against the row-stabilised reference '
+                  '(concrete, sampled; not solver-decided)', concrete_only=True, validate=30, scale=40.0, cost=2))
+  out.append(case('mlkr_n3_d2_k2_large_scale_sampled', mlkr_case(3, 2, 2), FUNCS,
+                  '3 random dyadic points of magnitude ~80 in R^2, random targets, random L (2x2) (concrete, sampled; not solver-decided)',
+                  concrete_only=True, validate=30, scale=40.0, cost=2))
   for w in ('NCA', 'MLKR'):
     out.append(case('fit_callsite_%s' % w, fit_callsite_case(w), FUNCS,
                     '%s.fit with the optimiser replaced by a recorder: 4 arbitrary points, arbitrary array init, arbitrary optimiser answer, max_iter 0..3' % w,
